@@ -371,6 +371,7 @@ def frames_equal(df, plain, cols):
 def run_shard(ctx):
     rng = ctx.rng('c18')
     Canon = canon_class()
+    traced_aliases(ctx, Canon, rng)
     maps = alias_maps(rng, ctx.pick(200, 1500))
     idx = 0
     for aliases in maps:
@@ -386,6 +387,39 @@ def run_shard(ctx):
             check_map(ctx, Canon, aliases, preferred, rng, ctx.pick(6, 10))
 
 
+def traced_aliases(ctx, Canon, rng):
+    """Aliases next to the tracer extension: asking for a trace of a variable by its alias (or by an alias of an alias) is asking
+    for a trace of that variable - same solution, same snapshots."""
+    from fsic.extensions import AliasMixin, TracerMixin
+    for k, aliases in enumerate([{'GDP': 'Y'}, {'GDP': 'Y', 'Out': 'GDP'}, {'Cons': 'C', 'Gov': 'G', 'GDP': 'Y'}, {'Gov': 'Out', 'Out': 'GDP', 'GDP': 'Y'}]):
+        if not ctx.mine(k):
+            continue
+        TA = type('TA', (AliasMixin, TracerMixin, Canon), {'ALIASES': dict(aliases)})
+        TC = type('TC', (TracerMixin, Canon), {})
+        names = list(aliases)
+        for spec in [names[0], [names[-1]], list(names), [names[0], 'C']]:
+            for entry in ('solve', 'solve_t', 'solve_period'):
+                canon = [resolve(aliases, x) if x in aliases else x for x in ([spec] if isinstance(spec, str) else spec)]
+                case = {'kind': 'traced-aliases', 'aliases': aliases, 'trace': spec, 'entry': entry}
+                ctx.evaluation(('traced-aliases', repr(aliases), repr(spec), entry), nontrivial=True, sample=case)
+                a, b = TA(range(2000, 2006), G=20.0), TC(range(2000, 2006), G=20.0)
+                args = {'solve': (), 'solve_t': (2,), 'solve_period': (2002,)}[entry]
+                ra = do(lambda: getattr(a, entry)(*args, failures='ignore', max_iter=30, trace=spec))
+                rb = do(lambda: getattr(b, entry)(*args, failures='ignore', max_iter=30, trace=canon[0] if isinstance(spec, str) else canon))
+                ctx.count('twin_steps_compared')
+                if repr(ra) != repr(rb) or any(a[v].tolist() != b[v].tolist() for v in VARS) or list(a.status) != list(b.status):
+                    ctx.violation('alias-operation-outcome', f'{entry}(trace={spec!r}) on an aliased model -> {str(ra)[:120]}; the same call with the variables\' own names {canon} on the twin -> {str(rb)[:120]}', case)
+                    return
+                for t in range(6):
+                    ta, tb = a['trace'][t], b['trace'][t]
+                    if list(ta.index) != list(tb.index) or repr(np.asarray(ta.values, dtype=float).tolist()) != repr(np.asarray(tb.values, dtype=float).tolist()):
+                        ctx.violation('alias-operation-state', f'{entry}(trace={spec!r}): period {t} trace {list(ta.index)} / {np.asarray(ta.values).tolist()} differs from the twin traced by {canon}: {list(tb.index)} / {np.asarray(tb.values).tolist()}', case)
+                        return
+
+
 def replay(ctx, case):
+    if case.get('kind') == 'traced-aliases':
+        ctx.inconclusive_because('re-run the shard with the same VERIF_SEED')
+        return
     ctx.evaluation(case, nontrivial=True)
     check_map(ctx, canon_class(), case['aliases'], case['preferred'], ctx.rng('c18'), 10)
